@@ -162,15 +162,22 @@ func WriteMultipartFormFile(w *multipart.Writer, fieldName, fileName string, r i
 	return err
 }
 
+var quoteEscaper = strings.NewReplacer("\\", "\\\\", `"`, "\\\"")
+
+// escapeQuotes escapes what would end a quoted parameter value early (as mime/multipart does).
+func escapeQuotes(s string) string {
+	return quoteEscaper.Replace(s)
+}
+
 func CreateMultipartHeader(param, fileName, contentType string) textproto.MIMEHeader {
 	hdr := make(textproto.MIMEHeader)
 
 	var contentDispositionValue string
 	if len(strings.TrimSpace(fileName)) == 0 {
-		contentDispositionValue = fmt.Sprintf(`form-data; name="%s"`, param)
+		contentDispositionValue = fmt.Sprintf(`form-data; name="%s"`, escapeQuotes(param))
 	} else {
 		contentDispositionValue = fmt.Sprintf(`form-data; name="%s"; filename="%s"`,
-			param, fileName)
+			escapeQuotes(param), escapeQuotes(fileName))
 	}
 	hdr.Set("Content-Disposition", contentDispositionValue)
 
